@@ -27,7 +27,7 @@ PARALLEL = 12
 def floors(tier):
     k = 1 if tier == "quick" else 4
     return {"surface_checks": 600 * k, "mixin_calls": 500 * k, "transport:rest": 70 * k, "transport:aio": 150 * k, "absent_confirmed": 250 * k,
-            "override_cases": 4 * k, "add_iam_cases": 5 * k, "add_iam_with_iam_in_yaml": 2 * k, "absent_although_rules_present": 20 * k, "rest_requests_reconstructed": 60 * k, "rest_only_cases": 2 * k}
+            "override_cases": 4 * k, "override_cases_with_internal_own_rpcs": 3 * k, "add_iam_cases": 5 * k, "add_iam_with_iam_in_yaml": 2 * k, "absent_although_rules_present": 20 * k, "rest_requests_reconstructed": 60 * k, "rest_only_cases": 2 * k}
 
 
 def plan(seed, tier):
@@ -61,6 +61,11 @@ def plan(seed, tier):
             for sub in (["iam"], ["iam", "operations"], ["locations", "iam", "operations"]):
                 cases.append({"id": f"mix-{seed}-{i}", "seed": seed * 100003 + i, "mixins": sub, "mode": "all", "own_iam": own, "add_iam": False})
                 i += 1
+        # ... and the API's own IAM RPCs generated as internal methods (selective generation, keep-as-internal mode)
+        for own, sub in ((["GetIamPolicy"], ["iam"]), (["SetIamPolicy", "GetIamPolicy", "TestIamPermissions"], ["locations", "iam", "operations"]),
+                         (["TestIamPermissions", "SetIamPolicy"], ["iam", "operations"])):
+            cases.append({"id": f"mix-{seed}-{i}", "seed": seed * 100003 + i, "mixins": sub, "mode": "all", "own_iam": own, "add_iam": False, "internal_own": True})
+            i += 1
         # the legacy option alone, next to other mixins, and together with an IAMPolicy entry in the YAML
         for sub, mode in (([], "all"), (["locations"], "all"), (["operations"], "all"), (["iam"], "all"), (["iam"], "some"),
                           (["iam", "operations"], "all"), (["locations", "iam", "operations"], "some")):
@@ -76,7 +81,8 @@ def build_api(case):
     if case.get("rest_only"):
         tr = "rest"          # a REST-only library: the mixin RPCs are there and callable all the same
     api = apigen.mixin_api(rng, "m%d" % (case["seed"] % 100000), case["mixins"], case["mode"], own_iam=case["own_iam"],
-                           add_iam=case["add_iam"], transport=tr, prefix=prefix, unlisted=case.get("unlisted") or ())
+                           add_iam=case["add_iam"], transport=tr, prefix=prefix, unlisted=case.get("unlisted") or (),
+                           internal_own=bool(case.get("internal_own")))
     return apigen.into_subpackage(api) if case.get("subpkg") else api
 
 
@@ -156,7 +162,7 @@ def run_case(case):
                 calls.append(c)
     own_calls = []
     for n in api.info["own_iam"]:
-        own_calls.append({"method": rdm.snake(n), "rpc": n})
+        own_calls.append({"method": ("_" if api.info.get("internal_own") else "") + rdm.snake(n), "rpc": n})
     script = {"root_pkg": apigen.runner_root(api), "all_methods": sorted(MIXIN_METHODS), "calls": calls, "own_calls": own_calls,
               "rest": rest and not api.info["add_iam"],
               "grpc": any(o_.startswith("transport=") and "grpc" in o_ for o_ in api.options)}
@@ -170,6 +176,8 @@ def run_case(case):
 
     if case["own_iam"]:
         bump("override_cases")
+    if case.get("internal_own"):
+        bump("override_cases_with_internal_own_rpcs")
     if case["add_iam"]:
         bump("add_iam_cases")
         if "iam" in case["mixins"]:
@@ -316,7 +324,7 @@ def in_runner(script):
     srv = rt.GrpcServer()
     http = rt.HttpServer()
     C = lib.client_cls("Vault")
-    A = getattr(lib.root, "VaultAsyncClient", None)
+    A = getattr(lib.root, "VaultAsyncClient", None) or getattr(lib.root, "BaseVaultAsyncClient", None)
     surface = {"sync": [m for m in script["all_methods"] if hasattr(C, m)], "async": [m for m in script["all_methods"] if A is not None and hasattr(A, m)]}
     gc = lib.grpc_client("Vault", srv.target) if script.get("grpc", True) else None
     rc = lib.rest_client("Vault", http.host) if script["rest"] else None
